@@ -734,7 +734,7 @@ def mutants(repo):
         Mutant('strict-flag-not-restored', lambda r: in_func(r, 'EvalContext.require_all_safe', "            self._require_all_safe = old", "            pass"), ['C07.R3']),
         Mutant('cache-hit-before-gate', lambda r: in_func(r, 'EvalContext.evaluate_node',
                "        if self._require_all_safe:\n            if not cfgobj.ayns.safe:", "        if self._require_all_safe and id(cfgobj) not in self._eval_cache_id:\n            if not cfgobj.ayns.safe:"), ['C07.R4']),
-        Mutant('get_node-gate-dropped', lambda r: in_func(r, 'EvalContext.get_node', "if self._require_all_safe and str(path) in self._eval_cache_unsafe:", "if False:"), ['C07.R4']),
+        Mutant('get_node-gate-dropped', lambda r: in_func(r, 'EvalContext.get_node', "            if self._require_all_safe:\n", "            if False:\n"), ['C07.R4']),
         Mutant('partialchild-gate-dropped', lambda r: delete_stmt(r, 'EvalContext.PartialChild.__getitem__', lambda t: t.startswith('if self._eval_ctx._require_all_safe')), ['C07.R4']),
         Mutant('unsafe-record-inverted', lambda r: in_func(r, 'EvalContext.evaluate_node', "if not cfgobj.ayns.safe:\n            self._eval_cache_unsafe", "if cfgobj.ayns.safe:\n            self._eval_cache_unsafe"), ['C07.R4b']),
         Mutant('replace-self-default-safe-F2-reverted', lambda r: in_func(r, 'ConfigNode._replace_self',
